@@ -11,6 +11,7 @@ import (
 	"fmt"
 	"math"
 	"math/rand"
+	"os"
 	"runtime/debug"
 	"sort"
 	"strconv"
@@ -120,7 +121,7 @@ func genName(r *rand.Rand, first string) string {
 	return string(b)
 }
 
-var valuePieces = []string{"a", "b", "1", "0", " ", "  ", "=", "==", "#", "/", ":", "http://x.y/z?a=1", "tcp -h 127.0.0.1 -p 10015 -t 60000", "'", "\"", ">", "]", "é", "日本", "\\", ";", ",", "@", "%", "-", "+", "true", "3.14", "|", "(", ")", "{", "}", "$HOME", "?", "!", "*", "~", "`"}
+var valuePieces = []string{"a", "b", "1", "0", " ", "  ", "=", "==", "#", "/", ":", "http://x.y/z?a=1", "tcp -h 127.0.0.1 -p 10015 -t 60000", "'", "\"", ">", "]", "é", "日本", "\\", ";", ",", "@", "%", "-", "+", "true", "3.14", "|", "(", ")", "{", "}", "$HOME", "${name}", "pa$$w0rd", "US$5", "$", "?", "!", "*", "~", "`"}
 
 func genValue(r *rand.Rand) string {
 	switch r.Intn(12) {
@@ -670,6 +671,28 @@ func main() {
 		}
 		if diff := checkTyped(res.c, typed); diff != "" {
 			run.Violation("typed-getter", classify(diff), diff, map[string]interface{}{"document": text, "difference": diff})
+		}
+		// the same document through the file entry point (every 8th): what is on disk is what is parsed
+		if i%8 == 3 {
+			dir := os.Getenv("VERIF_BUILD")
+			if dir == "" {
+				dir = os.TempDir()
+			}
+			path := fmt.Sprintf("%s/c17doc-%d.conf", dir, i%64)
+			if err := os.WriteFile(path, []byte(text), 0o644); err == nil {
+				run.Eval(1)
+				fc, ferr := conf.NewConf(path)
+				os.Remove(path)
+				if ferr != nil {
+					run.Violation("valid-document-rejected", "NewConf(file)", ferr.Error(), map[string]interface{}{"document": text})
+					continue
+				}
+				if diff := checkComplete(fc, d.root, nil, "", ""); diff != "" {
+					run.Violation("model-mismatch", "file:"+classify(diff), "through the file entry point: "+diff, map[string]interface{}{"document": text, "difference": diff})
+					continue
+				}
+				run.Add("documents_also_parsed_from_file", 1)
+			}
 		}
 		var doms []*domain
 		d.root.all(&doms)
